@@ -55,6 +55,8 @@ func buildC06(tier string, seed int64) *Family {
 		tpls = append(tpls, dam[i].Params["tpl"])
 	}
 	tpls = append(tpls, "N1 : N2 [ N1 : N3 ]", "p : N1", "N : N1", "p : N1 / q : N2", "N1 P1 N2", "P1 N1", "N1 P1", "P1 P2", "D1 P1 D2", "S1 P1", "N1 W1 P1 W2 N2", "( P1 )", "N1 [ P1 ]",
+		"$ N1 + D1", "$ N1 | N2", "N1 [ $ N2 w1 and w2 N3 ]", "N9 ( ) * D1", "namespace :: N1 | N2", "$ N1 = D1", "D1 + $ N1", "N9 ( ) | N1", "$ N1 / N2 | N3", "- $ N1",
+		"N1 [ N9 ( ) or N2 ]", "count ( $ N1 ) + D1", "( $ N1 ) | N2", "N1 | $ N2",
 		"D1 . D2", ". D1", "D1 .", "D1 . . D2", "N1 ( P1 )", "@ P1", "N1 :: P1", "$ N1", "$ N1 / N2", "$ P1", "N1 ( ) ( )", "N1 [ ] ", "( )", "[ ]", "N1 / / N2", "N1 | | N2")
 	for i, t := range tpls {
 		ns := []string{"nil", "empty", "p"}[i%3]
@@ -69,7 +71,10 @@ func buildC06(tier string, seed int64) *Family {
 		{"", "(", "a", ")"}, {"a/", "(", "a", ")"}, {"", "a[", "a", "]"}, {"", "a[(", "a", ")]"}, {"", "count(", "a", ")"}, {"", "not(", "a", ")"},
 		{"", "-(", "1", ")"}, {"", "(a|", "a", ")"}, {"//", "*[", "a", "]"}, {"", "concat(a,", "a", ")"}, {"", "a/", "a", ""},
 		{"", "1+", "1", ""}, {"", "a[a=", "1", "]"}, {"", "(a)[", "1", "]"}, {"", "a|", "a", ""}, {"", "a//", "a", ""}, {"", "a and ", "a", ""}, {"", "-", "1", ""},
-		{"", "string(a[", "a", "])"}, {"", "../", "a", ""}, {"", "a[", "1", "][1]"},
+		{"", "string(a[", "a", "])"},
+		// a completed inner construct precedes each deeper level (the counter must not drift)
+		{"a/", "((b),", "(b)", ")"}, {"", "((1)+", "(1)", ")"}, {"", "a[(1)][", "1", "]"}, {"", "count((a)|", "(a)", ")"}, {"", "(a)[(", "1", ")]"},
+		{"", "concat((a),", "(a)", ")"}, {"", "a[b[1]][", "1", "]"}, {"", "../", "a", ""}, {"", "a[", "1", "][1]"},
 	}
 	for _, f := range forms {
 		insts = append(insts, &vm.Instance{ID: "nesting: " + f.prefix + "{" + f.unit + "}^n " + f.core + " {" + f.close + "}^n", Harness: "H_deepnest",
